@@ -10,7 +10,14 @@ import (
 //doc:after   x.String()
 func redundantSprint(m dsl.Matcher) {
 	m.Match(`fmt.Sprint($x)`, `fmt.Sprintf("%s", $x)`, `fmt.Sprintf("%v", $x)`).
-		Where(!m["x"].Type.Is(`reflect.Value`) && m["x"].Type.Implements(`fmt.Stringer`) && !m["x"].Type.Implements(`error`) && !m["x"].Type.Implements(`fmt.Formatter`)).
+		Where(!m["x"].Type.Is(`reflect.Value`) && m["x"].Type.Implements(`fmt.Stringer`) && !m["x"].Type.Implements(`error`) && !m["x"].Type.Implements(`fmt.Formatter`) &&
+			(m["x"].Node.Is(`UnaryExpr`) || m["x"].Node.Is(`BinaryExpr`) || m["x"].Node.Is(`StarExpr`))).
+		Suggest(`($x).String()`).
+		Report(`use ($x).String() instead`)
+
+	m.Match(`fmt.Sprint($x)`, `fmt.Sprintf("%s", $x)`, `fmt.Sprintf("%v", $x)`).
+		Where(!m["x"].Type.Is(`reflect.Value`) && m["x"].Type.Implements(`fmt.Stringer`) && !m["x"].Type.Implements(`error`) && !m["x"].Type.Implements(`fmt.Formatter`) &&
+			!m["x"].Node.Is(`UnaryExpr`) && !m["x"].Node.Is(`BinaryExpr`) && !m["x"].Node.Is(`StarExpr`)).
 		Suggest(`$x.String()`).
 		Report(`use $x.String() instead`)
 
@@ -90,9 +97,14 @@ func httpNoBody(m dsl.Matcher) {
 		Suggest("http.NewRequestWithContext($ctx, $method, $url, http.NoBody)").
 		Report("http.NoBody should be preferred to the nil request body")
 
+	// The fix is offered only where net/http is imported.
+	m.Match("httptest.NewRequest($method, $url, $nil)").
+		Where(m["nil"].Text == "nil" && m.File().Imports(`net/http`)).
+		Suggest("httptest.NewRequest($method, $url, http.NoBody)").
+		Report("http.NoBody should be preferred to the nil request body")
+
 	m.Match("httptest.NewRequest($method, $url, $nil)").
 		Where(m["nil"].Text == "nil").
-		Suggest("httptest.NewRequest($method, $url, http.NoBody)").
 		Report("http.NoBody should be preferred to the nil request body")
 }
 
@@ -186,13 +198,20 @@ func stringXbytes(m dsl.Matcher) {
 
 	m.Match(`$len(string($b))`).Where(m["b"].Type.Is(`[]byte`) && m["len"].Text == "len" && m["len"].Object.Is(`Builtin`)).Suggest(`len($b)`)
 
+	// The fix is offered only where bytes is imported.
+	m.Match(`string($x) == string($y)`).
+		Where(m["x"].Type.Is(`[]byte`) && m["y"].Type.Is(`[]byte`) && m.File().Imports(`bytes`)).
+		Suggest(`bytes.Equal($x, $y)`)
 	m.Match(`string($x) == string($y)`).
 		Where(m["x"].Type.Is(`[]byte`) && m["y"].Type.Is(`[]byte`)).
-		Suggest(`bytes.Equal($x, $y)`)
+		Report(`suggestion: bytes.Equal($x, $y)`)
 
 	m.Match(`string($x) != string($y)`).
-		Where(m["x"].Type.Is(`[]byte`) && m["y"].Type.Is(`[]byte`)).
+		Where(m["x"].Type.Is(`[]byte`) && m["y"].Type.Is(`[]byte`) && m.File().Imports(`bytes`)).
 		Suggest(`!bytes.Equal($x, $y)`)
+	m.Match(`string($x) != string($y)`).
+		Where(m["x"].Type.Is(`[]byte`) && m["y"].Type.Is(`[]byte`)).
+		Report(`suggestion: !bytes.Equal($x, $y)`)
 
 	m.Match(`$re.Match([]byte($s))`).
 		Where(m["re"].Type.Is(`*regexp.Regexp`) && m["s"].Type.Is(`string`)).
@@ -451,9 +470,14 @@ func returnAfterHttpError(m dsl.Matcher) {
 //doc:before  x + string(os.PathSeparator) + y
 //doc:after   filepath.Join(x, y)
 func preferFilepathJoin(m dsl.Matcher) {
+	// The fix is offered only where path/filepath is imported.
+	m.Match(`$x + string(os.PathSeparator) + $y`).
+		Where(m["x"].Type.Is(`string`) && m["y"].Type.Is(`string`) && m.File().Imports(`path/filepath`)).
+		Suggest("filepath.Join($x, $y)").
+		Report(`filepath.Join($x, $y) should be preferred to the $$`)
+
 	m.Match(`$x + string(os.PathSeparator) + $y`).
 		Where(m["x"].Type.Is(`string`) && m["y"].Type.Is(`string`)).
-		Suggest("filepath.Join($x, $y)").
 		Report(`filepath.Join($x, $y) should be preferred to the $$`)
 }
 
@@ -468,7 +492,12 @@ func preferStringWriter(m dsl.Matcher) {
 		Report(`$w.WriteString($s) should be preferred to the $$`)
 
 	m.Match(`io.WriteString($w, $s)`).
-		Where(m["w"].Type.Implements("io.StringWriter")).
+		Where(m["w"].Type.Implements("io.StringWriter") && (m["w"].Node.Is(`UnaryExpr`) || m["w"].Node.Is(`StarExpr`))).
+		Suggest("($w).WriteString($s)").
+		Report(`($w).WriteString($s) should be preferred to the $$`)
+
+	m.Match(`io.WriteString($w, $s)`).
+		Where(m["w"].Type.Implements("io.StringWriter") && !m["w"].Node.Is(`UnaryExpr`) && !m["w"].Node.Is(`StarExpr`)).
 		Suggest("$w.WriteString($s)").
 		Report(`$w.WriteString($s) should be preferred to the $$`)
 }
@@ -649,9 +678,26 @@ func argOrder(m dsl.Matcher) {
 //doc:before  strings.Join([]string{x, y}, "_")
 //doc:after   x + "_" + y
 func stringConcatSimplify(m dsl.Matcher) {
-	m.Match(`strings.Join([]string{$x, $y}, "")`).Suggest(`$x + $y`)
-	m.Match(`strings.Join([]string{$x, $y, $z}, "")`).Suggest(`$x + $y + $z`)
-	m.Match(`strings.Join([]string{$x, $y}, $glue)`).Where(m["y"].Pure && m["glue"].Pure).Suggest(`$x + $glue + $y`)
+	// An indexed or sliced call needs parentheses around the concatenation that replaces it.
+	m.Match(`strings.Join([]string{$x, $y}, "")`).
+		Where(m["$$"].Node.Parent().Is(`IndexExpr`) || m["$$"].Node.Parent().Is(`SliceExpr`)).
+		Suggest(`($x + $y)`)
+	m.Match(`strings.Join([]string{$x, $y, $z}, "")`).
+		Where(m["$$"].Node.Parent().Is(`IndexExpr`) || m["$$"].Node.Parent().Is(`SliceExpr`)).
+		Suggest(`($x + $y + $z)`)
+	m.Match(`strings.Join([]string{$x, $y}, $glue)`).
+		Where(m["y"].Pure && m["glue"].Pure && (m["$$"].Node.Parent().Is(`IndexExpr`) || m["$$"].Node.Parent().Is(`SliceExpr`))).
+		Suggest(`($x + $glue + $y)`)
+
+	m.Match(`strings.Join([]string{$x, $y}, "")`).
+		Where(!m["$$"].Node.Parent().Is(`IndexExpr`) && !m["$$"].Node.Parent().Is(`SliceExpr`)).
+		Suggest(`$x + $y`)
+	m.Match(`strings.Join([]string{$x, $y, $z}, "")`).
+		Where(!m["$$"].Node.Parent().Is(`IndexExpr`) && !m["$$"].Node.Parent().Is(`SliceExpr`)).
+		Suggest(`$x + $y + $z`)
+	m.Match(`strings.Join([]string{$x, $y}, $glue)`).
+		Where(m["y"].Pure && m["glue"].Pure && !m["$$"].Node.Parent().Is(`IndexExpr`) && !m["$$"].Node.Parent().Is(`SliceExpr`)).
+		Suggest(`$x + $glue + $y`)
 }
 
 //doc:summary Detects manual conversion to milli- or microseconds
@@ -746,13 +792,22 @@ func emptyDecl(m dsl.Matcher) {
 //doc:before  fmt.Errorf(msg)
 //doc:after   errors.New(msg) or fmt.Errorf("%s", msg)
 func dynamicFmtString(m dsl.Matcher) {
+	// The fix is offered only where errors is imported; a call with several results is not a format string alone.
 	m.Match(`fmt.Errorf($f)`).
-		Where(!m["f"].Const).
+		Where(!m["f"].Const && m["f"].Type.Is(`string`) && m.File().Imports(`errors`)).
 		Suggest("errors.New($f)").
 		Report(`use errors.New($f) or fmt.Errorf("%s", $f) instead`)
 
+	m.Match(`fmt.Errorf($f)`).
+		Where(!m["f"].Const).
+		Report(`use errors.New($f) or fmt.Errorf("%s", $f) instead`)
+
 	m.Match(`fmt.Errorf($f($*args))`).
+		Where(m.File().Imports(`errors`)).
 		Suggest("errors.New($f($*args))").
+		Report(`use errors.New($f($*args)) or fmt.Errorf("%s", $f($*args)) instead`)
+
+	m.Match(`fmt.Errorf($f($*args))`).
 		Report(`use errors.New($f($*args)) or fmt.Errorf("%s", $f($*args)) instead`)
 }
 
